@@ -14,6 +14,11 @@ FLAVOUR = {
    B. an ARGUMENT-TYPE or API-VARIANT slip: the public API accepts several forms (str / bytes / bytearray / memoryview, str / os.PathLike, list / tuple / generator / mapping, keyword / positional, subclass instances, None vs missing vs empty, int vs numeric string, already-encoded vs text) and one legal form is now handled wrongly while the common form keeps working.
    C. a PERFORMANCE-motivated rewrite: caching (functools.lru_cache, a dict, precomputed attributes), a fast path / early exit, a precompiled or 'simplified' regular expression, replacing a loop by slicing/join/str methods, avoiding a copy - correct for common inputs, wrong for some specific legal ones.
  Ordinary everyday use must keep working - do NOT make a change that the first simple request would expose.""",
+ 8: """This round: make one change of each of these three kinds:
+   A. ENVIRONMENT-dependent: the change is correct in a default environment and breaks the property only under a particular process / OS environment - time zone or DST, locale, current working directory, umask or file permissions, symlinks / special files / unusual directory entries, file-system timestamps or sizes, environment variables, PYTHONHASHSEED, recursion limit, the size or busyness of a thread pool, the event-loop implementation or debug mode, warnings turned into errors (-W error), `python -O` (asserts stripped) or `-X dev`.
+   B. LONG-LIVED-PROCESS: nothing is wrong for the first request(s); the violation appears only after many requests / objects / a lot of data / some time - a counter that wraps or exceeds a threshold, a cache or registry that fills up or goes stale, state that accumulates on a module, class or long-lived object, a clock that moves (also backwards), an id that gets reused, resources that are released late.
+   C. TOLERATED-INPUT regression: callers (or servers) commonly pass something slightly off the documented type or shape that the current code happens to handle and the property covers - a str subclass or enum, pathlib.Path, int / bool / None where text is usual, bytes vs str keys, tuples vs lists, dict views, header names in odd case, absent optional ASGI scope keys (root_path, query_string, client, server, headers order), extra unknown keys, a WSGI environ with optional CGI keys missing - and the change stops handling one of them correctly.
+ Ordinary everyday use must keep working - do NOT make a change that the first simple request would expose.""",
  7: """This round: make one change of each of these three kinds, each written as a well-meant improvement with a convincing code comment / commit rationale:
    A. HARDENING: extra validation, sanitising, normalisation, limits or defensive copies added 'for security / robustness' that reject, alter or truncate some LEGAL input (or legal output) that the property covers.
    B. STANDARDS-MOTIVATED 'correction': the author read an RFC / PEP / WHATWG / ASGI spec paragraph (RFC 7233, 7232, 7230/9110, 6265, 3986, 7578, 2046, PEP 3333, ASGI HTTP/WebSocket spec, the HTML server-sent-events section) and changed the behaviour to follow their reading of it - but the reading is slightly off, or correct for the spec yet incompatible with what this property promises.
